@@ -179,8 +179,10 @@ def run(ctx):
                 except Exception as e:  # noqa
                     res.violation("roundtrip:STRINGN", f"STRINGN.encode/decode(len={n}, char_size={w}) raised {e!r:.200}", {"value": s})
         stypes = [(p.STRING, 1), (p.STRING2, 2), (p.SHORT_STRING, 1), (p.STRINGN, 0)]
-        langs = list(STRINGI.LANGUAGE_CODES.values())
-        csets = list(STRINGI.CHARACTER_SETS.values())
+        # the language is an ISO 639-2/T three-letter code and the character set an IANA MIBenum (UINT): the library's two tables name the
+        # common ones, they are not the domain (a device may hold Dutch or Korean text, or UTF-8 = 106)
+        langs = list(STRINGI.LANGUAGE_CODES.values()) + ["nld", "pol", "swe", "kor", "ara", "tur", "ces", "und", "mul", "zxx"]
+        csets = list(STRINGI.CHARACTER_SETS.values()) + [3, 106, 2026, 0, 65535]
         for _ in range(300 if quick else 3000):
             k = rng.choice([0, 1, 1, 2, 3, 5])
             items = []
